@@ -16,13 +16,17 @@ pub fn collect_sc(dirs: &[String]) -> Vec<PathBuf> {
     out
 }
 
-pub fn default_dirs() -> Vec<String> {
-    let repo = std::env::var("VERIF_REPO").unwrap_or_else(|_| "/repo".to_string());
-    let verif = std::env::var("VERIF_ROOT").unwrap_or_else(|_| {
+pub fn verif_root() -> String {
+    std::env::var("VERIF_ROOT").unwrap_or_else(|_| {
         let exe = std::env::current_exe().unwrap();
         // <root>/.cache/harness-target/debug/harness
         exe.ancestors().nth(4).unwrap().to_string_lossy().to_string()
-    });
+    })
+}
+
+pub fn default_dirs() -> Vec<String> {
+    let repo = std::env::var("VERIF_REPO").unwrap_or_else(|_| "/repo".to_string());
+    let verif = verif_root();
     vec![format!("{repo}/examples"), format!("{repo}/testsuite/success_check"), format!("{repo}/testsuite/end_to_end"), format!("{verif}/corpus/fun")]
 }
 
